@@ -1,5 +1,6 @@
 """C16 Generated identifiers never repeat."""
 import itertools
+import json
 import threading
 
 import common
@@ -198,6 +199,18 @@ def run(ctx, res):
         res.mismatches.append(dict(case=dict(clock=tmeta[idx], interleaving="B.generate() at every lock release of A"),
                                    impl=tcases[idx][1], model=model_out))
     res.extra["thread_model_cases"] = len(tcases)
+    # the engines BoboSetupSimple assembles: devices with different URNs, the same clock second, the same requests -
+    # their run identifiers and event identifiers must not coincide (the prefix has to reach every generator)
+    r = setup_case(["dev:1", "dev:2", "dev:10"])
+    res.note_case(("setup", "dev:1/dev:2/dev:10"), True)
+    res.extra["setup_wiring_ids"] = r
+    for kind in ("run_ids", "event_ids"):
+        allx = [x for u in r for x in r[u][kind]]
+        if len(set(allx)) != len(allx):
+            res.failures.append(dict(signature="setup-%s-collide-across-devices" % kind.replace("_", "-"),
+                                     what="engines built by BoboSetupSimple for different URNs produced the same %s in the same second: %s"
+                                          % (kind.replace("_", " "), {u: r[u][kind] for u in r}),
+                                     case=dict(clock=[1700000000], setup=True), detail=r))
     # shrink failures: keep the shortest
     res.failures.sort(key=lambda f: len(f["case"].get("clock", [])))
 
@@ -229,6 +242,33 @@ class ReleaseHook:
         self.release()
 
 
+def setup_case(urns):
+    """one engine per URN from BoboSetupSimple, clock pinned, each fed the same two data: the run ids the deciders
+    draw and the event ids the receivers draw"""
+    import bobocep.cep.gen.event_id as m
+    from bobocep.setup.simple import BoboSetupSimple
+    from bobocep.cep.phenom.phenom import BoboPhenomenon
+    from bobocep.cep.phenom.pattern.builder import BoboPatternBuilder
+    from bobocep.cep.action.handler import BoboActionHandlerBlocking
+    old = m.time
+    m.time = lambda: 1700000000
+    out = {}
+    try:
+        for u in urns:
+            pat = BoboPatternBuilder("p").followed_by(lambda e, h: e.data == "a").followed_by(lambda e, h: e.data == "z").generate()
+            eng = BoboSetupSimple(phenomena=[BoboPhenomenon(name="ph", patterns=[pat], action=None)],
+                                  handler=BoboActionHandlerBlocking(), urn=u).generate()
+            for d in ("a", "a"):
+                eng.receiver.add_data(d)
+                eng.update()
+            runs = list(eng.decider.all_runs())
+            out[u] = dict(run_ids=sorted(r.run_id for r in runs),
+                          event_ids=sorted(e.event_id for r in runs for e in r.history().all_events()))
+    finally:
+        m.time = old
+    return out
+
+
 def hook_case(seq):
     """ids of caller A and of a caller B scheduled at every lock release of A; None if the generator has no _lock"""
     import bobocep.cep.gen.event_id as m
@@ -249,6 +289,12 @@ def hook_case(seq):
 
 def replay(obj):
     case = obj.get("case") or {}
+    if case.get("setup"):
+        r = setup_case(["dev:1", "dev:2", "dev:10"])
+        print("engines from BoboSetupSimple, clock pinned:", json.dumps(r, indent=1))
+        bad = any(len(set(x for u in r for x in r[u][k])) != sum(len(r[u][k]) for u in r) for k in ("run_ids", "event_ids"))
+        print("identifiers of different devices coincide" if bad else "identifiers of different devices are distinct")
+        return 1 if bad else 0
     if "clock" not in case:
         print(obj)
         return 0
